@@ -495,7 +495,7 @@ func CompileRegexp(re *syntax.Regexp, config Config) (*Engine, error) {
 	if runeNFAEngine != nil {
 		pikevmNFA = runeNFAEngine
 	}
-	pikevm := nfa.NewPikeVM(pikevmNFA)
+	pikevm := nfa.NewSharedPikeVM(pikevmNFA)
 
 	// Set prefilter as skip-ahead inside PikeVM (Rust approach: pikevm.rs:1293).
 	// When NFA has no active threads, PikeVM skips to next candidate position.
@@ -715,7 +715,7 @@ func configurePikeVMSkipAhead(pikevm *nfa.PikeVM, pf prefilter.Prefilter, isStar
 // DFAs to eliminate duplicate allocations (~15-20 KB per DFA for 100-state NFA).
 // Reverse DFAs use different (reversed) NFAs so they keep their own PikeVMs.
 func sharePikeVMWithDFAs(nfaEngine *nfa.NFA, engines strategyEngines) {
-	shared := nfa.NewPikeVM(nfaEngine)
+	shared := nfa.NewSharedPikeVM(nfaEngine)
 	if engines.dfa != nil {
 		engines.dfa.SetPikeVM(shared)
 	}
